@@ -1,7 +1,10 @@
 """C07 — multipole-moment integrals exact for every order and origin.
 Correspondence: Moment.construct_array_contraction / moment_integral vs the exact Coq model (commands 8, 9);
 order (0,0,0) vs overlap_integral; the binomial origin-shift law checked on the implementation with exact
-binomial coefficients."""
+binomial coefficients.
+Stream "hp": Moment.construct_array_contraction (command 8) and the kernel _compute_multipole_moment_integrals itself
+(command 5, norms from the real norm_prim_cart) replayed in 260-bit arithmetic on object arrays (harness/hpnum.py) and
+compared at 1e-18 x sum|primitive terms|."""
 import itertools
 import random
 from fractions import Fraction
@@ -15,7 +18,9 @@ from lib import run_cases, sx
 RULE = ("block level: (l_a, l_b) in 0..4 x 0..4 enumerated; every order triple with each order 0..4 is used (all 125 "
         "spread over the cases, in shuffled lists of 1-6 triples with repeats); origins on a centre, off centre, far "
         "away; basis level 1-4 shells cart/sph/mixed with/without transform; tolerance 1e-9 of the largest element "
-        "of the same order slice (min 1e-9); distinct by input hash")
+        "of the same order slice (min 1e-9); distinct by input hash; hp stream: 8 (quick) / 80 (thorough) shell pairs "
+        "l<=2 / l<=4, K,M<=2, 1-4 order triples up to 4, origins on/off centre and far, replayed at 260 bits against "
+        "commands 8 and 5, tolerance 1e-18 x sum|primitive terms|")
 RULE += " HISTORY stream (the returned value depends only on the arguments): basis-level shells carry the atom index (icenter; shells sharing a centre share it); every 2nd generated basis (quick; every 4th thorough; with a transform only bases of 1-2 shells) and every 5th same-centre pair is a GEOMETRY SCAN evaluated in one process: the same shells (exponents, coefficients, types, icenter) with the atoms displaced rigidly by k/16 bohr (one atom, or every atom by its own vector) at 1-2 further geometries, then the first geometry again; every call is compared with the exact model at its own geometry with the same tolerance (detail kind \"history\", the replay case contains the geometries; shrinking and replay evaluate every candidate sequence in a fresh process)"
 ASSUMPTIONS = ["'double-precision accuracy' is read as 1e-9 relative to the largest element of the order slice; rounding "
                "of the NumPy pipeline is not modelled"]
@@ -36,6 +41,24 @@ def _impl_int(case, gbasis, T):
     from gbasis.integrals.moment import moment_integral
     return moment_integral(gbasis, np.array([float(c) for c in _C(case)]), np.array(case["orders"], dtype=int),
                            transform=T)
+
+
+def _hp_block(case, ha, hb):
+    import hpnum
+    C = hpnum.hp_array(_C(case))
+    orders = np.array(case["orders"], dtype=int)
+    if case.get("hp") == 5:      # the kernel itself, as Moment.construct_array_contraction calls it
+        from gbasis.integrals._moment_int import _compute_multipole_moment_integrals
+        return _compute_multipole_moment_integrals(
+            C, orders, ha.coord, ha.angmom_components_cart, ha.exps, ha.coeffs, ha.norm_prim_cart,
+            hb.coord, hb.angmom_components_cart, hb.exps, hb.coeffs, hb.norm_prim_cart)
+    from gbasis.integrals.moment import Moment
+    return Moment.construct_array_contraction(ha, hb, C, orders)
+
+
+def _block_cmd(case, sa, sb):
+    code = 5 if case.get("hp") == 5 else 8
+    return "(%d %s %s %s %s)" % (code, sx(_C(case)), sx(case["orders"]), sa.sx(), sb.sx())
 
 
 def _tol(model, case, res, level, *args):
@@ -68,7 +91,7 @@ def _extra(case, impl, res, level):
 
 KERNEL = dict(
     name="moment",
-    block_cmd=lambda case, sa, sb: "(8 %s %s %s %s)" % (sx(_C(case)), sx(case["orders"]), sa.sx(), sb.sx()),
+    block_cmd=_block_cmd, hp_block=_hp_block, hp_seg=lambda case: (1, 3) if case.get("hp") == 5 else (0, 2),
     int_cmd=lambda case, basis, T: "(9 %s %s %s %s)" % (sx(_C(case)), sx(case["orders"]), twoindex.basis_sx(basis),
                                                          twoindex.t_sx(T)),
     impl_block=_impl_block, impl_int=_impl_int, post=lambda a: a, tol=_tol)
@@ -146,8 +169,17 @@ def gen_cases(tier, seed):
             C = [Fraction(r.randint(-800, 800), 8) for _ in range(3)]  # far away
         return {"C": [str(c) for c in C], "orders": orders}
 
-    cases = twoindex.gen_cases(tier, seed, salt=7, lmax_block=4, lmax_basis=3, extra=extra,
-                               nb_quick=40, nb_thorough=250, block_reps_thorough=4)
+    def hp_extra(r, level, shells):
+        d = extra(r, level, shells)
+        d["orders"] = d["orders"][:4]
+        return d
+
+    cases = twoindex.hp_cases(tier, seed, salt=7, n_quick=8, n_thorough=80, extra=hp_extra)
+    for i, c in enumerate(cases):
+        if i % 2:
+            c["hp"] = 5          # odd cases: the kernel called directly (command 5), axes [D][Ma][La][Mb][Lb]
+    cases += twoindex.gen_cases(tier, seed, salt=7, lmax_block=4, lmax_basis=3, extra=extra,
+                                nb_quick=40, nb_thorough=250, block_reps_thorough=4)
     nshift = 6 if tier == "quick" else 40
     from lib import gen_shell
     for _ in range(nshift):
